@@ -194,6 +194,48 @@ template <typename T, int LO, int HI> constexpr bool law_size() {
     return range_t<T>::make_empty().size() == 0 && range_t<T>::make_empty().empty();
 }
 
+// ---- both operands are the same object: r op= r must still be the set-theoretic result --------------
+template <typename T, int LO, int HI> constexpr bool law_self_operand() {
+    for (int a = LO; a <= HI; ++a) for (int b = a; b <= HI; ++b) {
+        long long lo = 0, hi = 0;
+        {   // r - r = [a-b, b-a]
+            if (fits<T>((long long)a - b) && fits<T>((long long)b - a)) {
+                range_t<T> r{(T)a, (T)b};
+                r -= r;
+                if ((long long)r.first() != (long long)a - b || (long long)r.last() != (long long)b - a) return false;
+            }
+        }
+        {   // r + r = [2a, 2b]
+            if (fits<T>(2LL * a) && fits<T>(2LL * b)) {
+                range_t<T> r{(T)a, (T)b};
+                r += r;
+                if ((long long)r.first() != 2LL * a || (long long)r.last() != 2LL * b) return false;
+            }
+        }
+        {   // r * r = hull of all products x*y with x,y in [a,b]
+            lo = hi = (long long)a * a;
+            for (int x = a; x <= b; ++x) for (int y = a; y <= b; ++y) {
+                long long p = (long long)x * y;
+                if (p < lo) lo = p;
+                if (p > hi) hi = p;
+            }
+            if (fits<T>(lo) && fits<T>(hi)) {
+                range_t<T> r{(T)a, (T)b};
+                r *= r;
+                if ((long long)r.first() != lo || (long long)r.last() != hi) return false;
+            }
+        }
+        {   // r & r = r,  r | r = r
+            range_t<T> r{(T)a, (T)b}, u{(T)a, (T)b};
+            r &= r;
+            u |= u;
+            if ((long long)r.first() != a || (long long)r.last() != b) return false;
+            if ((long long)u.first() != a || (long long)u.last() != b) return false;
+        }
+    }
+    return true;
+}
+
 // ---- floating point and 32-bit boundary values ------------------------------------------------------
 template <typename T> constexpr bool law_bounds_fp() {
     constexpr T inf = std::numeric_limits<T>::infinity();
@@ -277,7 +319,8 @@ template <typename T> constexpr bool law_bounds_extremes() {
 
 LAWS_BOX = ["law_gt", "law_geq", "law_lt", "law_leq", "law_intersection", "law_intersection_element", "law_union",
             "law_union_element", "law_plus", "law_minus", "law_times", "law_plus_element", "law_minus_element",
-            "law_times_element", "law_contains", "law_intersects", "law_equal", "law_strict_order", "law_size"]
+            "law_times_element", "law_contains", "law_intersects", "law_equal", "law_strict_order", "law_size",
+            "law_self_operand"]
 
 
 def generate(tier):
